@@ -124,7 +124,9 @@ abbrev Ntaken (s : State) : Nat := cntG s.fut .taken s.hi
 abbrev Ndecd (s : State) : Nat := cntG s.fut .decd s.hi
 abbrev Nback (s : State) : Nat := cntG s.fut .back s.hi
 
-structure Inv (w : Workload) (s : State) : Prop where
+/-- `strict = false` additionally admits the two loop-exit test points (`reg hi`, `rst hi`) that the model folds into the
+    preceding step; it is only used inside the preservation proofs (`inv_advReg`, `inv_advRst`). -/
+structure InvG (strict : Bool) (w : Workload) (s : State) : Prop where
   hw : s.w = w
   alive_iff : s.alive = true ↔ s.wpc.inCall = true
   holder_w : s.holder = some .w ↔ s.wpc.holds = true
@@ -153,7 +155,8 @@ structure Inv (w : Workload) (s : State) : Prop where
     s.counter = ((s.hi - s.lo : Nat) : Int) + 1 - (if s.sub1done then (((s.hi - s.lo) - s.wc + 1 : Nat) : Int) else 0)
       - (Ndecd s : Int) - (if s.sub2done then (s.rc : Int) else 0)
   /-- waiter phases -/
-  reg_inv : ∀ i, s.wpc = .reg i ∨ s.wpc = .regCas i → s.lo ≤ i ∧ i < s.hi ∧ s.wc + s.lo ≤ i
+  reg_inv : ∀ i, s.wpc = .reg i ∨ s.wpc = .regCas i →
+    s.lo ≤ i ∧ s.wc + s.lo ≤ i ∧ (i < s.hi ∨ (strict = false ∧ i = s.hi ∧ s.wpc = .reg i))
   post_inv : s.wpc.postReg = true → 1 ≤ s.wc ∧ s.wc + s.lo ≤ s.hi
   early_inv : s.wpc.early = true → s.sub1done = false
   sub1_multi : s.wpc = .sub1 → s.hi - s.lo ≠ 1
@@ -163,9 +166,11 @@ structure Inv (w : Workload) (s : State) : Prop where
   resetting : s.wpc.resetting = true → s.ready = false ∧ s.timedOutSeen = true ∧ s.sub2done = false
   timedout_inv : s.wpc = .timedOut → s.rc = 0 ∧ s.sub2done = false ∧ s.timedOutSeen = true
   rst_lo : s.alive = true → ∀ i, s.lo ≤ i → i < rstBound s → (s.fut i).g ≠ .inn
-  rst_hi : s.alive = true → s.sub2done = false → ∀ i, rstBound s ≤ i → (s.fut i).g ≠ .back
-  rst_inv : ∀ i, (s.wpc = .rst i ∨ ∃ x, s.wpc = .rstCas i x) → s.lo ≤ i ∧ i < s.hi
+  rst_hi : ∀ i, (s.wpc = .rst i ∨ ∃ x, s.wpc = .rstCas i x) → ∀ j, i ≤ j → (s.fut j).g ≠ .back
+  rst_inv : ∀ i, (s.wpc = .rst i ∨ ∃ x, s.wpc = .rstCas i x) →
+    s.lo ≤ i ∧ (i < s.hi ∨ (strict = false ∧ i = s.hi ∧ s.wpc = .rst i))
   rstcas_x : ∀ i x, s.wpc = .rstCas i x → x ≠ .result
+  rstcas_ev : ∀ i x, s.wpc = .rstCas i x → (s.fut i).g = .inn → x = .ev
   sub2_inv : s.wpc = .sub2 → s.hi - s.lo ≠ 1 ∧ s.rc ≠ 0 ∧ s.rc ≠ s.wc
   sub2done_inv : s.alive = true → s.sub2done = true → s.sub1done = true ∧ s.hi - s.lo ≠ 1
   rc_seen : s.alive = true → s.rc ≠ 0 → s.timedOutSeen = true
@@ -186,7 +191,7 @@ structure Inv (w : Workload) (s : State) : Prop where
   fi_lo : s.alive = true → s.fi ≤ s.lo
   calls_fi : s.calls ≠ [] → s.fi = 0
   inget : s.inGet = true → s.alive = true ∨ (∃ i, s.wpc = .gotRep i) →
-    s.calls = [] ∧ s.lo = s.fi ∧ s.hi = s.fi + 1
+    s.calls = [] ∧ s.lo = s.fi ∧ s.hi = s.fi + 1 ∧ s.timed = false
   inget_f : s.inGet = false → ∀ i, s.wpc ≠ .gotRep i
   att_inv : ∀ i, s.wpc = .att i ∨ s.wpc = .attCas i ∨ s.wpc = .attFail i → i = s.fi ∧ s.calls = [] ∧ s.w.fin i = .attach
   attfail : ∀ i, s.wpc = .attFail i → (s.fut i).word = .result
@@ -198,6 +203,12 @@ structure Inv (w : Workload) (s : State) : Prop where
   del_some : ∀ i, i < s.fi → s.w.fin i ≠ .none →
     (s.fut i).ndel + (if (s.fut i).word = .cont then 1 else 0) + (if (s.fut i).ppc = .fire then 1 else 0) = 1
   del_none : ∀ i, i < s.fi → s.w.fin i = .none → (s.fut i).ndel = 0 ∧ (s.fut i).word ≠ .cont ∧ (s.fut i).ppc ≠ .fire
+
+abbrev Inv (w : Workload) (s : State) : Prop := InvG true w s
+
+theorem InvG.weaken {b : Bool} {w : Workload} {s : State} (h : Inv w s) : InvG b w s := by
+  cases h
+  constructor <;> first | assumption | grind
 
 theorem inv_init (w : Workload) : Inv w (init w) := by
   constructor <;> simp [init, WPc.inCall, WPc.holds, WPc.postReg, WPc.early, WPc.preTimeout, WPc.timedOnly, WPc.resetting]
